@@ -268,7 +268,7 @@ class Cas:
                     r = c.args[0]
                     direct = (r.func.attr == "read" and isinstance(r.func.value, ast.Name) and r.func.value.id in handles and not r.args) or (r.func.attr in ("read_text", "read_bytes") and bool(names_in(r.func.value) & self.aliases))
                     if direct:
-                        key = f"<read at line {n.lineno}>"
+                        key = f"<read at line {n.lineno}>" if f"<read at line {n.lineno}>" not in reads else f"<read at line {n.lineno} #{len(reads)}>"  # (two copies of an inlined helper share line numbers)
                         reads.setdefault(key, []).append(n)
                         out.setdefault(n.targets[0].id, []).append((n, key))
         # a local whose every binding is None or a copy of such a hash local holds that hash (or nothing): `h2 = h if .. else None`
@@ -280,9 +280,11 @@ class Cas:
             for n in walk_no_nested(self.fa.fi.node):
                 if isinstance(n, ast.Assign) and len(n.targets) == 1 and isinstance(n.targets[0], ast.Name):
                     binds.setdefault(n.targets[0].id, []).append(n)
+            none_locals = {nm_ for nm_, ds_ in binds.items() if all(isinstance(d_.value, ast.Constant) and d_.value.value is None for d_ in ds_)}
             for nm, ds in binds.items():
                 if nm in out:
                     continue
+                ds = [d for d in ds if not (isinstance(d.value, ast.Name) and d.value.id in none_locals)]  # (a copy of a local that is only ever None)
                 srcs = [d for d in ds if not (isinstance(d.value, ast.Constant) and d.value.value is None)]
                 if srcs and all(isinstance(d.value, ast.Name) and d.value.id in out for d in srcs) and len(srcs) + sum(1 for d in ds if isinstance(d.value, ast.Constant) and d.value.value is None) == len(ds):
                     for d in srcs:
